@@ -6,7 +6,7 @@ import sys
 VERIF = os.path.dirname(os.path.abspath(__file__))
 
 LIN = "LinHash/LinKdf: rotate-xor model hash (Nh=8, block=8) stands for 'any deterministic hash'; sound for equalities with the RFC reference (equal terms give equal outputs under any hash), a deviation is found when SOME input distinguishes it"
-INTERN = "InternHash/InternKdf: injective model hash (equal digests <=> equal messages); disequality results hold in this symbolic model - for SHA-2 the corresponding assumption is collision resistance"
+INTERN = "InternKdf: in the C07/C08 harnesses HMAC itself is modelled as an INJECTIVE function of (key, message) (interning table; equal outputs <=> equal inputs) through the hkdf stub layer; disequality results hold in this symbolic model - for HMAC-SHA-2 the corresponding assumption is collision resistance / PRF security, which no solver decides"
 XORDH = "XorDh: 16-bit toy Diffie-Hellman group (pk(a)=a^G, dh(a,P)=a^P^G, rejects a zero result) instantiated through the REAL impl_dhkem! macro; stands for the algebraic facts HPKE uses (commutativity, injectivity, a failing DH)"
 SPY = "SpyAead: records exactly what hpke hands to the AEAD and returns a harness-chosen (symbolic) verdict/tag; stands for 'any AEAD whatsoever'"
 IDEAL = "IdealAead: invertible keystream + decrypt accepts iff (key,nonce,aad,ct,tag) was produced by encrypt (INT-CTXT by construction); the real AES-GCM/ChaCha20Poly1305 crates are assumed to be correct AEADs"
